@@ -805,6 +805,33 @@ func c08Run(line string, out *hx.Out) (obs string, nontrivial bool) {
 		}
 	}
 
+	// ---- liveness oracle (C08_close_returns / C08_close_waits_only_for_env) -------------------
+	// After a DRAIN that reached its fixpoint every handler body has returned, the peer has answered
+	// every call it received (or the connection is cut) and no goroutine can move without the harness:
+	// Close() must have returned and every call of this side must have completed. Nothing of this
+	// depends on timing (the watchdog case is excluded).
+	if !c.timeout && len(toks) > 0 && toks[len(toks)-1] == "DRAIN" {
+		c.mu.Lock()
+		for _, s := range c.sess {
+			if s.closeBegun && !s.closeRet {
+				out.Violate(line, "close-returns",
+					fmt.Sprintf("session %d: all handler bodies have returned, every call was answered or the connection cut, nothing can move, but Close() has not returned (closer at %q)", s.idx+1, s.closerChar()),
+					"c08:close-never-returns")
+			}
+			for _, j := range s.outs {
+				if _, ok := s.outStat[j]; !ok {
+					out.Violate(line, "issued-calls-complete",
+						fmt.Sprintf("session %d outbound call %d never completed although nothing can move any more (cut=%v peerReplied=%v)", s.idx+1, j, s.ev["cut"] != 0, s.prs[j]),
+						"c08:call-never-completes")
+				}
+			}
+		}
+		if c.peerPC == 1 {
+			out.Violate(line, "peer-close-returns", "every session's Close() could return but Peer.Close() has not", "c08:peer-close-never-returns")
+		}
+		c.mu.Unlock()
+	}
+
 	// ---- end of schedule: open everything, close both peers, collect ------------------------
 	timedOut := c.timeout
 	c.openAll()
